@@ -16,6 +16,10 @@ from . import ops as O
 
 INF = 1 << 62
 TOOL = 4
+# the recursion limit is an ambient input of the *simulated caller* (lowered by a knob
+# or by an armed stack-exhaustion fault); the harness's own code - snapshots, canonical
+# forms, records - always runs under this generous one
+HARNESS_RLIMIT = 100000
 OP_BUDGET = 30_000_000
 
 E = sys.monitoring.events
@@ -343,6 +347,9 @@ class Sim:
 
     def check_I4(self, where, task, opi, fn):
         cur = C.interp_state()
+        # (the recursion limit is checked at the moment a call returns, in exec_op: in
+        #  between the harness runs under its own limit)
+        cur["recursionlimit"] = self.interp0.get("recursionlimit")
         for k, v in cur.items():
             if self.interp0.get(k) != v:
                 self.violation("I4", task, opi,
@@ -406,7 +413,10 @@ class Sim:
         Always done by the resumed task itself, at its own depth - the task that
         hands over may be hundreds of frames deep, where lowering the limit raises."""
         try:
-            sys.setrecursionlimit(me.rlimit or self.base_rlimit)
+            if me.cur_op is not None:
+                sys.setrecursionlimit(me.rlimit or self.base_rlimit)
+            else:
+                sys.setrecursionlimit(HARNESS_RLIMIT)   # between operations: harness code
         except RecursionError:
             pass
 
@@ -430,7 +440,11 @@ class Sim:
         if check:
             self.stats["i1_midop_checks"] += 1
             fn = O.fn_key(me.ops[me.cur_op]["fn"]) if me.cur_op is not None else None
-            self.check_I1("suspended", me.idx, me.cur_op, fn)
+            sys.setrecursionlimit(HARNESS_RLIMIT)
+            try:
+                self.check_I1("suspended", me.idx, me.cur_op, fn)
+            finally:
+                self.apply_rlimit(me)
         if mid:
             self.suspended_mid_op += 1
             self.stats["ops_suspended"] += 1
@@ -601,19 +615,21 @@ class Sim:
         self.rec("invoke", me.idx, k, fnk, pre)
         if sf is not None:
             me.rlimit = _depth() + int(sf["d"])
-            sys.setrecursionlimit(me.rlimit)
         me.cnt[0] = 0
         me.cnt[1] = me.trig[0][0] if me.trig else OP_BUDGET
         res = None
         try:
             try:
+                sys.setrecursionlimit(me.rlimit or self.base_rlimit)   # the caller's limit
                 res = fobj(*args, **kwargs)
+                sys.setrecursionlimit(HARNESS_RLIMIT)
                 outcome = ["ret", C.canon(res)]
             finally:
                 me.cnt[1] = INF
-                if sf is not None:
-                    me.rlimit = None
-                    sys.setrecursionlimit(self.base_rlimit)
+                lim_after = sys.getrecursionlimit()
+                lim_want = me.rlimit or self.base_rlimit
+                me.rlimit = None
+                sys.setrecursionlimit(HARNESS_RLIMIT)
         except BudgetExceeded:
             outcome = ["budget"]
         except BaseException as e:  # noqa: B036
@@ -627,6 +643,10 @@ class Sim:
         self.gseq += n
         self.stats["events"] += n
         me.cur_op = None
+        if lim_after not in (lim_want, HARNESS_RLIMIT) and self.suspended_mid_op == 0:
+            # I4: the call left another recursion limit behind than the caller had set
+            self.violation("I4", me.idx, k, {"key": "recursionlimit", "was": lim_want,
+                                             "now": lim_after, "where": "on-return"}, fnk)
         # I2: inputs intact (also after a fault)
         post = [C.digest(C.canon(a)) for a in flat]
         if post != pre:
@@ -683,11 +703,16 @@ class Sim:
                 else:
                     self.exec_op(me, k, op)
         except BaseException as e:  # harness failure, not a verdict
-            import traceback
-            self.harness_error = "task %d: %s" % (me.idx, traceback.format_exc()[-1500:])
             me.cnt[1] = INF
             me.done = True
-            self.main_gate.release()
+            try:
+                sys.setrecursionlimit(HARNESS_RLIMIT)
+                import traceback
+                self.harness_error = "task %d: %s" % (me.idx, traceback.format_exc()[-1500:])
+            except BaseException:  # noqa: B036
+                self.harness_error = "task %d: %r" % (me.idx, e)
+            finally:
+                self.main_gate.release()     # whatever happens: the run must end
             return
         me.done = True
         nxt = self.pick(me.idx + 1, me)
@@ -730,8 +755,8 @@ class Sim:
             # ("off": long single-caller soak histories run unmonitored - no
             # pre-emption or fault is planned in them, and LINE events triple the cost)
             install_monitor(self.slow, global_mode=(spec.get("monitor") == "global"))
-        self.interp0 = C.interp_state()
         threading.stack_size(64 * 1024 * 1024)
+        self.interp0 = C.interp_state()
         prelude = spec.get("prelude") or []
         phases = []
         if prelude:
@@ -760,6 +785,7 @@ class Sim:
             if self.harness_error:
                 break
         CNT = [0, INF]
+        sys.setrecursionlimit(HARNESS_RLIMIT)
         if not self.harness_error:
             self.check_I1("end", None, None, None, full=True)
             self.check_I4("end", None, None, None)
